@@ -551,11 +551,16 @@ SHIPPED = [
 
 
 def gen_yaml_client(r, names=None, env_seed=None):
-    return {
+    spec = {
         'kind': 'yaml',
         'yaml': r.choice(names or SHIPPED),
         'env_seed': env_seed if env_seed is not None else gen_seed(r),
     }
+    if r.random() < 0.2:
+        # a legal edit of the shipped data: one reward entry listed twice (second copy with scaled values);
+        # the environment reward is the sum of ALL listed parts
+        spec['yaml_edit'] = {'dup_reward': [r.randrange(8), r.choice([0.5, -1.0, 2.0, 1.0])]}
+    return spec
 
 
 def simplify_world(world):
